@@ -4,6 +4,7 @@ import (
 	"bytes"
 	"encoding/binary"
 	"fmt"
+	"strings"
 
 	"github.com/splunk/stef/go/otel/otelstef"
 	"github.com/splunk/stef/go/pkg"
@@ -129,6 +130,7 @@ func runLimitsMode() {
 	}
 	frozenFloodCases()
 	floatFrameBoundCases()
+	bigDictResetCases()
 }
 
 func limitsCase(name string, root *rootSpec, o wopts, cfg *recgen.Cfg, p genParams, r *rng.R) {
@@ -529,6 +531,72 @@ func floatFrameBoundCases() {
 			}
 			if worst > bound {
 				propFail("C08 frame-limit-exceeded-float-column case=%s: %d gauge records with the value pattern %v (after the first value), frame size limit F=%d, no Flush: the largest frame has %d bytes of content, more than F + one record + the size table (%d); frames: %d", name, n, pat, F, worst, bound, len(ps.frames)-1)
+			}
+		}
+	}
+}
+
+// bigDictResetCases (C08): a dictionary limit large enough for ONE string dictionary to collect
+// thousands of entries before it is reached (1 MiB, 256 KiB), more distinct names than that, and
+// the same names again after the reset(s): the writer and the reader must reset at the same record
+// boundary whatever the dictionary held, every record must read back, and a dictionary restart
+// must have happened (the limit is in force).
+func bigDictResetCases() {
+	for ci, c := range []struct {
+		limit uint
+		names int
+		width int
+	}{{1 << 20, 8000, 130}, {256 << 10, 6000, 60}, {2000, 300, 10}} {
+		name := fmt.Sprintf("lim-bigdict-%d", ci)
+		note("case %s", name)
+		cw := &chunkLog{}
+		w, err := otelstef.NewMetricsWriter(cw, pkg.WriterOptions{MaxTotalDictSize: c.limit})
+		if err != nil {
+			propFail("C08 bigdict-writer case=%s %v", name, err)
+			continue
+		}
+		mk := func(i int) string { return fmt.Sprintf("metric.name.%06d.%s", i, strings.Repeat("x", c.width)) }
+		total := 2 * c.names
+		ok := true
+		for i := 0; i < total && ok; i++ {
+			w.Record.Metric().SetName(mk(i % c.names))
+			w.Record.Point().SetTimestamp(uint64(i))
+			if err := w.Write(); err != nil {
+				propFail("C08 bigdict-write case=%s record %d: %v", name, i, err)
+				ok = false
+			}
+		}
+		if !ok {
+			continue
+		}
+		w.Flush()
+		note("nontrivial %x", uint64(c.limit)^uint64(c.names))
+		ps := parseStream(cw.buf.Bytes())
+		restarts := 0
+		if ps.err == nil {
+			for _, f := range ps.frames[1:] {
+				if f.flags&byte(pkg.RestartDictionaries) != 0 {
+					restarts++
+				}
+			}
+		}
+		stats["bigdict-restarts"] += restarts
+		if restarts == 0 {
+			propFail("C08 bigdict-limit-not-enforced case=%s %d distinct names of %d bytes (twice), MaxTotalDictSize=%d: no frame announces a dictionary restart", name, c.names, len(mk(0)), c.limit)
+		}
+		rd, err := otelstef.NewMetricsReader(bytes.NewReader(cw.buf.Bytes()))
+		if err != nil {
+			propFail("C08 bigdict-not-readable case=%s %v", name, err)
+			continue
+		}
+		for i := 0; i < total; i++ {
+			if err := rd.Read(pkg.ReadOptions{}); err != nil {
+				propFail("C08 bigdict-reader-desync case=%s %d distinct metric names of %d bytes written twice, MaxTotalDictSize=%d (%d dictionary restarts announced): Read of record %d returned %v", name, c.names, len(mk(0)), c.limit, restarts, i, err)
+				break
+			}
+			if got := rd.Record.Metric().Name(); got != mk(i%c.names) {
+				propFail("C08 bigdict-reader-desync case=%s %d distinct metric names written twice, MaxTotalDictSize=%d (%d dictionary restarts announced): record %d read back with the name %q, written %q", name, c.names, c.limit, restarts, i, clip(got, 40), clip(mk(i%c.names), 40))
+				break
 			}
 		}
 	}
